@@ -414,6 +414,57 @@ def replay(witness):
     return out
 
 
+# --- predicates of the known findings (over the minimal witness) ---------------------------------------------------------------------------
+PSEUDO = set("\"'*`ª°²³´¹º‘’“”„‟′″‴‵‶‷⁗")
+SCRIPTED = ("msub", "msup", "msubsup", "munder", "mover", "munderover")
+
+
+def _witness_tree(v):
+    for op in v["witness"].get("ops", []):
+        if op and op[0] == "set_mathml":
+            try:
+                return gen.from_xml(op[1]), op[1]
+            except Exception:
+                return None, op[1]
+    return None, ""
+
+
+def pred_internal_attribute(v, params):
+    """the input carries MathCAT's own bookkeeping attribute data-changed (e.g. 'empty_content' on an element that has content)"""
+    _, xml = _witness_tree(v)
+    return "data-changed=" in xml
+
+
+def pred_pseudo_script_row(v, params):
+    """an mrow that consists of pseudo-script operators only (primes, degree, ...) and is not the first child of its parent row"""
+    tree, _ = _witness_tree(v)
+    if tree is None:
+        return False
+    for n, path in tree.walk():
+        if n.tag == "mrow" and n.kids and path and path[-1] > 0 and all(k.kids is None and k.tag == "mo" and (k.text or "") in PSEUDO for k in n.kids):
+            return True
+    return False
+
+
+def pred_empty_base_before_fence(v, params):
+    """a script / under-over element whose base is an empty token, followed in the same row by a close fence"""
+    tree, _ = _witness_tree(v)
+    if tree is None:
+        return False
+    for n, _ in tree.walk():
+        kids = n.kids or []
+        for i, k in enumerate(kids):
+            if k.tag in SCRIPTED and k.kids and k.kids[0].kids is None and (k.kids[0].text or "").strip() == "":
+                if any(s.kids is None and s.tag == "mo" and (s.text or "") in ")]}⟩⌉⌋|‖" for s in kids[i + 1:]):
+                    return True
+    return False
+
+
+core.PREDICATES["c08_internal_attribute"] = pred_internal_attribute
+core.PREDICATES["c08_pseudo_script_row"] = pred_pseudo_script_row
+core.PREDICATES["c08_empty_base_before_fence"] = pred_empty_base_before_fence
+
+
 def make_sessions(seed, n_sessions, n_ops):
     rng = random.Random(seed)
     out = []
